@@ -5,10 +5,10 @@
 //! current behaviour at that site. Any other deviation is a violation.
 
 use crate::core::Outcome;
-use crate::model::M;
+use crate::model::{Tree, M};
 
 /// current behaviour at a known-finding site: (finding id, the state(s) pushr produces today)
-fn asis_states(name: &str, m0: &M) -> Option<(&'static str, Vec<M>)> {
+pub fn asis_states(name: &str, m0: &M) -> Option<(&'static str, Vec<M>)> {
     let mut m = m0.clone();
     match name {
         // doc: "Pushes FALSE if the top FLOAT is 0.0, or TRUE otherwise"; upstream test
@@ -48,6 +48,15 @@ fn asis_states(name: &str, m0: &M) -> Option<(&'static str, Vec<M>)> {
             } else {
                 None
             }
+        }
+        // doc: the body is executed destination-many times; the re-armed loop has to put the body
+        // back on the CODE stack. Upstream test code_loop_pushes_body_and_updated_loop pins the
+        // shape ( INDEX.INCREASE CODE.LOOP body ), whose body is *executed* instead of re-quoted.
+        "CODE.LOOP" if !m.c.is_empty() && !m.x.is_empty() && m.x[0].0 < m.x[0].1 => {
+            let body = m.c.remove(0);
+            m.e.insert(0, Tree::L(vec![Tree::ins("INDEX.INCREASE"), Tree::ins("CODE.LOOP"), body.clone()]));
+            m.e.insert(0, body);
+            Some(("KF-CODE.LOOP-rearm-executes-body", vec![m]))
         }
         _ => None,
     }
